@@ -46,7 +46,8 @@ THEMES = ["classic", "readthedocs"]
 MAXORDER = tier(6, 24)
 
 
-def observe(order, roots, theme, named):
+def observe(order, roots, theme, named, previous=None):
+    """previous: None = fresh output directory; otherwise the (roots, theme) of a run whose output the directory already holds"""
     setorder.ORDER[0] = order
     fresh_process()
     try:
@@ -60,7 +61,16 @@ def observe(order, roots, theme, named):
         if not named:
             # the guess made by driver.get_system (h_root_names_order decides it for every order of root_names)
             s.projectname = "guess"
-        out = crawl.render(s, theme)
+        into = None
+        if previous is not None:
+            import tempfile
+            into = tempfile.mkdtemp(prefix="verif_render_")
+            sp = PJ.build({k: SOURCES[k] for k in previous[0]}, opts=opts)
+            sp.buildtime = datetime.datetime(2020, 1, 2, 3, 4, 5)
+            sp.projectname = s.projectname
+            crawl.render(sp, previous[1], into=into)
+            fresh_process()
+        out = crawl.render(s, theme, into=into)
         try:
             files = {}
             for f in sorted(out.files):
@@ -147,4 +157,45 @@ def h_set_order(order: int, named: bool) -> bool:
     named = pickb(named)
     with NoTracing():
         ok = check_sets(order, ri, ti, named)
+    return done(ok)
+
+
+def check_reuse(ri, ti, named, order):
+    """the output directory already holds the result of the previous run of the same project and options"""
+    key = (ri, ti, named)
+    if key not in _BASE:
+        _BASE[key] = observe(0, NROOTS[ri], THEMES[ti], named)
+    base, _m = _BASE[key]
+    got, _m2 = observe(order, NROOTS[ri], THEMES[ti], named, previous=(NROOTS[ri], THEMES[ti]))
+    sample(roots=[r for r in NROOTS[ri] if "." not in r], theme=THEMES[ti], directory_holds="the previous run of the same project", set_order_index=order, files_compared=len(base))
+    ctx = dict(roots=[r for r in NROOTS[ri] if "." not in r], theme=THEMES[ti], project_name_given=named, set_order_index=order)
+    if set(got) != set(base):
+        note(why="re-running into the directory of the previous run changes the set of files", only_one_side=sorted(set(got) ^ set(base))[:6], **ctx)
+        return False
+    for f in sorted(base):
+        if got[f] != base[f]:
+            note(why="a file written into a reused output directory differs from the one written into a fresh directory", file=f, **ctx)
+            return False
+    return True
+
+
+@harness(
+    parts=lambda: [[r, t] for r in range(3) for t in range(2)], timeout=(300, 900), cls="F", tracing="concrete-after-choice", twin="first", unblock=UNBLOCK,
+    code=["pydoctor.templatewriter.writer.TemplateWriter.prepOutputDirectory/writeSummaryPages/writeIndividualFiles", "pydoctor.templatewriter.TemplateLookup / StaticTemplate.write", "pydoctor.sphinx.SphinxInventoryWriter.generate",
+          "pydoctor.templatewriter.search (write_lunr_index, AllDocuments)"],
+    bounds={"quick": "the 3 projects x 2 themes x name given or not of h_set_order; the output directory holds the previous run of the same project (single root: including the <root>.html -> index.html symlink) and the second run "
+                     "uses set-order index 0..2: same set of files, every file byte-identical to a run into a fresh directory", "thorough": "same"},
+    stubs=[],
+    outside="a directory holding anything else than the previous run of the same sources (observed, outside the statement: after a single-root run, a run with several roots writes the root's page THROUGH the stale <root>.html symlink over index.html)",
+)
+def h_reused_dir(named: bool, order: int) -> bool:
+    """
+    pre: 0 <= order <= 2
+    post: _
+    """
+    ri, ti = PART if PART is not None else [0, 0]
+    named = pickb(named)
+    order = pick(order, 0, 2)
+    with NoTracing():
+        ok = check_reuse(ri, ti, named, order)
     return done(ok)
